@@ -4,6 +4,7 @@ import ComposeVerif.Lemmas.ExtendsComplete
 import ComposeVerif.Neg.C05
 import ComposeVerif.Model.ExtendsMerge
 import ComposeVerif.Lemmas.ExtendsReal
+import ComposeVerif.Gen.C05Facts
 /-!
 # C05 — extends yields base-then-local override, order-independent, cycle-safe
 
@@ -411,6 +412,147 @@ theorem extends_eq_flattenF {E : Env} {order : List String} {dict out S : KVs}
   obtain ⟨v, hv, hf⟩ := (hall n).2 hn
   obtain ⟨fuel, hfu⟩ := flattenF_complete E hf
   exact ⟨v, fuel, hv, hfu⟩
+
+/-- **the source is the code that was modelled.**  The decision-relevant statements of `ApplyExtends`,
+`applyServiceExtends`, `getExtendsBaseFromFile`, `deepClone` (loader/extends.go) and `cycleTracker.Add`
+(loader/loader.go), regenerated from the tree on every run (`Gen/C05Facts.lean`, translator/c05.go), are the ones
+`Model/Extends.lean` was written against: the order of the checks, the tracker call on `(filename, name)` after the
+base was located and before the recursion, the context switched to the referenced file, the deep clone of the base
+before `override.ExtendService(source, service)`, `delete(merged, "extends")`, the memo `services[name] = merged`,
+the options of the nested load and `ResolveRelativePaths(source, relworkingdir, …)` after the three checks, the
+fresh branch of the tracker. -/
+theorem extends_source_is_modelled :
+    CV.Gen.c05_ApplyExtends = [
+  "if !ok",
+  "return nil",
+  "if !ok",
+  "return <error>",
+  "errorf services must be a mapping",
+  "range services",
+  "merged := applyServiceExtends(…)",
+  "applyServiceExtends(ctx, name, services, opts, tracker, post)",
+  "if err != nil",
+  "return err",
+  "services[name] = merged",
+  "dict[\"services\"] = services",
+  "return nil"] ∧
+    CV.Gen.c05_applyServiceExtends = [
+  "if s == nil",
+  "return nil, nil",
+  "if !ok",
+  "return nil, <error>",
+  "errorf services.%s must be a mapping",
+  "if !ok",
+  "return s, nil",
+  "filename := ctx.Value(consts.ComposeFileKey{}).(string)",
+  "typeswitch v := extends.(type)",
+  "case map[string]any",
+  "ref = v[\"service\"].(string)",
+  "if !ok",
+  "return nil, <error>",
+  "errorf services.%s.extends.service must be a string",
+  "file = v[\"file\"]",
+  "case string",
+  "ref = v",
+  "if file != nil",
+  "if !ok",
+  "return nil, <error>",
+  "errorf services.%s.extends.file must be a string",
+  "getExtendsBaseFromFile(ctx, name, ref, filename, refFilename, opts, tracker)",
+  "post = append(post, processor)",
+  "if err != nil",
+  "return nil, err",
+  "ctx = context.WithValue(…)",
+  "context.WithValue(ctx, consts.ComposeFileKey{}, refFilename)",
+  "if !ok",
+  "return nil, <error>",
+  "errorf cannot extend service %q in %s: service %q not found",
+  "tracker = tracker.Add(…)",
+  "tracker.Add(filename, name)",
+  "if err != nil",
+  "return nil, err",
+  "base = applyServiceExtends(…)",
+  "applyServiceExtends(ctx, ref, services, opts, tracker, post)",
+  "if err != nil",
+  "return nil, err",
+  "if base == nil",
+  "return service, nil",
+  "source := deepClone(base).(map[string]any)",
+  "deepClone(base)",
+  "range post",
+  "processor.Apply(map[string]any{\n\t\"services\": map[string]any{\n\t\tname: source,\n\t},\n})",
+  "merged := override.ExtendService(…)",
+  "override.ExtendService(source, service)",
+  "if err != nil",
+  "return nil, err",
+  "delete(merged, \"extends\")",
+  "services[name] = merged",
+  "return merged, nil"] ∧
+    CV.Gen.c05_getExtendsBaseFromFile = [
+  "range opts.ResourceLoaders",
+  "if !loader.Accept(refPath)",
+  "loader.Accept(refPath)",
+  "loader.Load(ctx, refPath)",
+  "if err != nil",
+  "return nil, nil, err",
+  "filepath.Dir(local)",
+  "loader.Dir(refPath)",
+  "opts.clone()",
+  "extendsOpts.ResourceLoaders = append(opts.RemoteResourceLoaders(), localResourceLoader{\n\tWorkingDir: localdir,\n})",
+  "opts.RemoteResourceLoaders()",
+  "extendsOpts.ResolvePaths = false",
+  "extendsOpts.SkipNormalization = true",
+  "extendsOpts.SkipConsistencyCheck = true",
+  "extendsOpts.SkipInclude = true",
+  "extendsOpts.SkipExtends = true",
+  "extendsOpts.SkipValidation = true",
+  "extendsOpts.SkipDefaultValues = true",
+  "source := loadYamlFile(…)",
+  "loadYamlFile(ctx, types.ConfigFile{Filename: local}, extendsOpts, relworkingdir, nil, ct, map[string]any{}, nil)",
+  "if err != nil",
+  "return nil, nil, err",
+  "if !ok",
+  "return nil, nil, <error>",
+  "errorf cannot extend service %q in %s: no services section",
+  "if !ok",
+  "return nil, nil, <error>",
+  "errorf cannot extend service %q in %s: services must be a mapping",
+  "if !ok",
+  "return nil, nil, <error>",
+  "errorf cannot extend service %q in %s: service %q not found in %s",
+  "range opts.RemoteResourceLoaders()",
+  "opts.RemoteResourceLoaders()",
+  "paths.ResolveRelativePaths(source, relworkingdir, remotes)",
+  "if err != nil",
+  "return nil, nil, err",
+  "return services, processor, nil",
+  "return nil, nil, <error>",
+  "errorf cannot read %s"] ∧
+    CV.Gen.c05_deepClone = [
+  "typeswitch v := value.(type)",
+  "case []any",
+  "range v",
+  "cp[i] = deepClone(…)",
+  "deepClone(e)",
+  "return cp",
+  "case map[string]any",
+  "range v",
+  "cp[k] = deepClone(…)",
+  "deepClone(e)",
+  "return cp",
+  "default",
+  "return value"] ∧
+    CV.Gen.c05_trackerAdd = [
+  "toAdd := serviceRef{filename: filename, service: service}",
+  "range ct.loaded",
+  "if toAdd == loaded",
+  "range append(ct.loaded[1:], toAdd)",
+  "return nil, <error>",
+  "errors.New(strings.Join(errLines, \"\\n\"))",
+  "branch = append(branch, ct.loaded...)",
+  "branch = append(branch, toAdd)",
+  "return &cycleTracker{\n\tloaded: branch,\n}, nil"] :=
+  ⟨rfl, rfl, rfl, rfl, rfl⟩
 
 /-! ## non-vacuity: the hypotheses of the theorems above are satisfiable by a non-trivial input
 (the two-file model of `Neg/C05.lean`, visited in the order that succeeds) -/
